@@ -117,6 +117,31 @@ def tcp_lifecycle(chk):
         chk.broken_obligation("harness:tcp-life-C12", "%d of %d cases did not reach READY over loopback TCP" % (notready, len(cases)))
 
 
+def valid_list_stage(chk):
+    """component->valid_candidates (copies kept for the source-address gate) over MORE addresses than the list holds (50 + 1): the evicted copy
+    must be released.  Real nice_component_add_valid_candidate through harness/gate_h.c, one process per case, LeakSanitizer at exit."""
+    objs, l = vlib.repo_objects(vlib.AGENT_SRCS + vlib.SOCKET_SRCS + vlib.STUN_SRCS + ["agent/agent-enum-types.c"])
+    impl, o = vlib.link("gate_h", ["gate_h.c"], objs) if objs else (None, l)
+    if not impl:
+        chk.broken_obligation("impl-build-gate", (o or "")[-2000:]); return
+    rng = chk.sub_rng("valid-list")
+    cases = []
+    for i in range(24 if chk.tier == "quick" else 400):
+        naddr = rng.choice([3, 50, 51, 52, 53, 60, 120, 200, rng.randrange(1, 400)])
+        ops = ["A%d:%d" % (rng.choice([0, 0, 0, 1, 2, 3]), k) for k in range(naddr)]
+        ops += ["A0:%d" % rng.randrange(naddr) for _ in range(rng.randrange(0, 30))]
+        rng.shuffle(ops)
+        cases.append("v%d %s\n" % (i, " ".join(ops)))
+    outs, errs = vlib.run_sharded(impl, cases, nshards=len(cases), timeout=300, env=dict(LSAN_OPTIONS="max_leaks=4", ASAN_OPTIONS="detect_leaks=1:abort_on_error=0"))
+    for n, (idx, rc, se) in enumerate(errs):
+        if n < 3:
+            chk.violation({"kind": "impl-crash", "what": "valid-list-C12", "case": cases[idx].strip()[:4000], "rc": rc, "stderr": se[-3000:]},
+                          "valid-list-C12: leak / sanitizer report (rc=%s) after %d authenticated source addresses on one component:\n%s" % (rc, cases[idx].count(" A"), se[-1500:]))
+    for k, out in enumerate(outs):
+        chk.count_case(cases[k], cases[k].count(" A") > 51, "valid-list")
+    chk.cov["correspondence"]["valid-list-C12"] = {"cases": len(cases), "failed": len(errs)}
+
+
 # minimised / original triggers of the defects these programs found (they run on every tier): e3eeaf1 (pruning without a selected pair), 0b161c7
 # (key leak in the FORBIDDEN branch, OC2007), cbdb5cd (nominated pair without selected pair, WLM2009)
 API_CORPUS = [
@@ -135,6 +160,7 @@ def run(chk):
     cases = API_CORPUS + [sc.gen_api_program(chk.rng, i) for i in range(n)]
     sc.run_sim(chk, cases, oracle, "sim-C12", leaks=True, compare=False)
     tcp_lifecycle(chk)
+    valid_list_stage(chk)
     import c12_own
     c12_own.own_tie(chk)
     return chk.finish(**FINISH)
